@@ -37,7 +37,7 @@ def HASHSEEDS(tier):
 def budget(tier):
     if tier == "quick":
         return {"examples": 400, "shards": 2}
-    return {"examples": 800, "shards": 16}
+    return {"examples": 4000, "shards": 16}
 
 
 def three_artic_cycle(b, name):
